@@ -69,6 +69,8 @@ pub struct Profile {
     pub fsync_delay_ms: (u64, u64),
     /// share of nodes whose disk is very slow (fsync delay x 25: whole elections pass meanwhile)
     pub slow_disk_pm: u64,
+    /// share of runs in which the application may tell raft about persistence after sending the persisted messages
+    pub defer_notify_pm: u64,
     pub stabilise_pm: u64,
     pub transfer_in_suffix_pm: u64,
     pub lockstep: bool,
@@ -128,6 +130,7 @@ impl Profile {
             slow_round_pm: 100,
             fsync_delay_ms: (1, 60),
             slow_disk_pm: 60,
+            defer_notify_pm: 300,
             stabilise_pm: 0,
             transfer_in_suffix_pm: 0,
             lockstep: false,
@@ -153,6 +156,7 @@ enum Ev {
     Fetched(NodeId),
     ClearStorageFault(NodeId),
     Decommission(NodeId),
+    Notify(NodeId),
 }
 
 struct NodeDrv {
@@ -199,6 +203,7 @@ pub struct Driver<'a> {
     last_conf_applied: u64,
     last_snapshots: u64,
     calm: bool,
+    defer_notify: bool,
 }
 
 const MS: u64 = 1000;
@@ -329,7 +334,9 @@ impl<'a> Driver<'a> {
             last_conf_applied: 0,
             last_snapshots: 0,
             calm: false,
+            defer_notify: false,
         };
+        d.defer_notify = d.rng.pm(p.defer_notify_pm);
         for id in ids {
             if d.world.nodes[&id].running() {
                 let phase = d.rng.below(d.nd[&id].tick_period);
@@ -367,6 +374,7 @@ impl<'a> Driver<'a> {
             Action::Tick { n }
             | Action::AppReady { n, .. }
             | Action::Fsync { n, .. }
+            | Action::Notify { n }
             | Action::Apply { n, .. }
             | Action::Propose { n, .. }
             | Action::ProposeBatch { n, .. }
@@ -989,7 +997,7 @@ impl<'a> Driver<'a> {
                     let n = *self.rng.pick(&minority);
                     let mode = self.round_mode(n);
                     self.act(Action::AppReady { n, mode, skip_fsync: false, force: false })?;
-                    self.act(Action::Fsync { n, count: u32::MAX })?;
+                    self.act(Action::Fsync { n, count: u32::MAX, defer: false })?;
                     self.act(Action::Apply { n, count: u32::MAX })?;
                 } else if choice < 93 && !minority.is_empty() {
                     let n = *self.rng.pick(&minority);
@@ -1087,7 +1095,12 @@ impl<'a> Driver<'a> {
                 }
                 let wq = self.world.nodes[&n].disk.wq.len() as u32;
                 let count = if self.rng.pm(250) && wq > 1 { self.rng.range(1, wq as u64) as u32 } else { u32::MAX };
-                self.act(Action::Fsync { n, count })?;
+                let defer = self.defer_notify && self.rng.pm(400);
+                self.act(Action::Fsync { n, count, defer })?;
+                if defer {
+                    let d = if self.rng.pm(300) { self.rng.range(5, 80) * MS } else { self.rng.range(50, 3000) };
+                    self.push(d, Ev::Notify(n));
+                }
                 self.schedule_node_work(n);
             }
             Ev::ApplyEv(n) => {
@@ -1158,6 +1171,10 @@ impl<'a> Driver<'a> {
             }
             Ev::Decommission(n) => {
                 self.act(Action::Decommission { n })?;
+            }
+            Ev::Notify(n) => {
+                self.act(Action::Notify { n })?;
+                self.schedule_node_work(n);
             }
         }
         Ok(())
